@@ -1238,8 +1238,10 @@ _lookup(LB* self,
         return NULL;
 
     cache = _getcache(self, provided, name);
-    if (cache == NULL)
+    if (cache == NULL) {
+        Py_DECREF(required);
         return NULL;
+    }
 
     if (PyTuple_GET_SIZE(required) == 1)
         key = PyTuple_GET_ITEM(required, 0);
@@ -1504,11 +1506,19 @@ _lookupAll(LB* self, PyObject* required, PyObject* provided)
     if (required == NULL)
         return NULL;
 
-    ASSURE_DICT(self->_mcache);
+    if (self->_mcache == NULL) {
+        self->_mcache = PyDict_New();
+        if (self->_mcache == NULL) {
+            Py_DECREF(required);
+            return NULL;
+        }
+    }
 
     cache = _subcache(self->_mcache, provided);
-    if (cache == NULL)
+    if (cache == NULL) {
+        Py_DECREF(required);
         return NULL;
+    }
 
     result = PyDict_GetItem(cache, required);
     if (result == NULL) {
@@ -1576,11 +1586,19 @@ _subscriptions(LB* self, PyObject* required, PyObject* provided)
     if (required == NULL)
         return NULL;
 
-    ASSURE_DICT(self->_scache);
+    if (self->_scache == NULL) {
+        self->_scache = PyDict_New();
+        if (self->_scache == NULL) {
+            Py_DECREF(required);
+            return NULL;
+        }
+    }
 
     cache = _subcache(self->_scache, provided);
-    if (cache == NULL)
+    if (cache == NULL) {
+        Py_DECREF(required);
         return NULL;
+    }
 
     result = PyDict_GetItem(cache, required);
     if (result == NULL) {
